@@ -61,25 +61,22 @@ def cases(ctx: Ctx):
     return out
 
 
-def apply_state(AC, d, s):
-    d.beep = s["beep"]
-    d.power_state = s["power"]
-    d.target_temperature = s["t2"] / 2
-    d.operational_mode = AC.OperationalMode(s["mode"])
+def apply_state(AC, d, s, rng=None):
+    """Set every attribute through the PUBLIC setters, in a random order when an rng is given (setters must not interfere)."""
     try:
-        d.fan_speed = AC.FanSpeed(s["fan"])
+        fan = AC.FanSpeed(s["fan"])
     except ValueError:
-        d.fan_speed = s["fan"]
-    d.swing_mode = AC.SwingMode(s["swing"])
-    d.follow_me = s["follow"]
-    d.turbo = s["turbo"]
-    d.eco = s["eco"]
-    d.purifier = s["purifier"]
-    d.aux_mode = AC.AuxHeatMode(s["aux"])
-    d.sleep = s["sleep"]
-    d.fahrenheit = s["fahr"]
-    d.target_humidity = s["hum"]
-    d.freeze_protection = s["freeze"]
+        fan = s["fan"]
+    sets = [("beep", s.get("beep", False)), ("power_state", s["power"]), ("target_temperature", s["t2"] / 2), ("operational_mode", AC.OperationalMode(s["mode"])),
+            ("fan_speed", fan), ("swing_mode", AC.SwingMode(s["swing"])), ("follow_me", s["follow"]), ("turbo", s["turbo"]), ("eco", s["eco"]),
+            ("purifier", s["purifier"]), ("aux_mode", AC.AuxHeatMode(s["aux"])), ("sleep", s["sleep"]), ("fahrenheit", s["fahr"]),
+            ("target_humidity", s["hum"]), ("freeze_protection", s["freeze"])]
+    if "beep" not in s:
+        sets = sets[1:]
+    if rng is not None:
+        rng.shuffle(sets)
+    for name, value in sets:
+        setattr(d, name, value)
 
 
 def collect(ctx: Ctx, states):
@@ -94,7 +91,7 @@ def collect(ctx: Ctx, states):
 
     async def go():
         for s in states:
-            apply_state(AC, d, s)
+            apply_state(AC, d, s, ctx.rng)
             n0 = len(dev.rx)
             ac.log.clear()
             try:
